@@ -66,6 +66,8 @@ IT_EDITS = (
     ("sel", spaces.P_ONLY_SQL),
     ("calc", "w", spaces.C_ONLY_SQL),
     S((spaces.C_ONLY_SQL, True)),
+    ("sel", ("in_seq", R("a"), (spaces.C_ONLY_SQL, L(1)))),
+    ("sel", ("in_seq", R("b"), (L(1), ("add", spaces.C_ONLY_SQL, L(1))))),
 )
 SQL_EDITS = (
     ("chain", ("E",)),
@@ -88,6 +90,13 @@ SQL_EDITS = (
     ("join", ("K",), None, False, ("b",), "direct"),
     ("join", ("K",), ("only", "iteration", ("gt", R("d"), R("a"))), False, ("a",), "direct"),
     ("join", ("K",), ("only", "iteration", ("gt", R("d"), R("a"))), True, None, "direct"),
+    # explicit common columns the join-identity operand cannot have (the identity short-cut must not skip the check)
+    ("join", ("I0",), None, False, ("a",), "direct"),
+    ("join", ("I0",), None, True, ("mm", ("a",), None), "direct"),
+    ("join", ("I0",), None, False, ("a",)),
+    # an engine-restricted function hidden among the items of a membership test
+    ("sel", ("in_seq", R("a"), (spaces.C_ONLY_IT, L(1)))),
+    ("join", ("K",), ("in_seq", R("d"), (L(7), spaces.C_ONLY_IT)), False),
     # unresolved explicit common-column requests that cannot be met
     ("join", ("K",), None, False, ("mm", ("b",), None)),
     ("join", ("K",), None, True, ("mm", ("a",), ("b",))),
